@@ -613,7 +613,7 @@ func c18Subgraph(c *C18Sub, r *core.Rec) {
 	nodeName := func(n int) interface{} { return n*100 + 7 }
 	edgeName := func(n, e int) interface{} { return [2]int{n, e} }
 	var s graph.Subgraph
-	var wantNodes []int     // new node -> old node
+	var wantNodes []int      // new node -> old node
 	var wantEdges [][][2]int // new node -> list of (old node, old edge idx) in required order (Remove) or any order (Keep)
 	if c.Remove {
 		s = graph.SubgraphRemove(g, append([]int{}, c.Nodes...), edges)
